@@ -1,6 +1,7 @@
 from props import *  # noqa: F401,F403
 
 rc_bin("c05_rc", ["harness/c05_span_identity.cc"], lib=True)
+rc_bin("c05_tsan", ["harness/c05_span_identity.cc"], lib=True, san="tsan")
 PROPS["C05"] = dict(
     level_text="Model-based property tests over generated trees of StartSpan/WithActiveSpan/End operations: a parent-resolution "
                "model (explicit SpanContext > explicit Context > active span; root marker cuts; invalid explicit parent falls back) "
@@ -18,6 +19,7 @@ PROPS["C05"] = dict(
     runs=[
         run("tree", "c05_rc", "tree_program", "rc", dict(procs=8, cases=3000), dict(procs=16, cases=40000)),
         run("threads", "c05_rc", "tree_threads", "rc", dict(procs=3, cases=800), dict(procs=6, cases=8000), deterministic=False),
+        run("threads-tsan", "c05_tsan", "tree_threads", "rc", dict(procs=2, cases=250), dict(procs=4, cases=4000), deterministic=False, replay_bin="c05_tsan"),
         run("fork", "c05_rc", "fork_ids", "rc", dict(procs=1, cases=150), dict(procs=2, cases=1500)),
     ],
 )
